@@ -574,9 +574,9 @@ type Discharger struct {
 func newDischarger(tier string) *Discharger {
 	wd := filepath.Join("/verif/.work", fmt.Sprintf("%d", os.Getpid()))
 	os.MkdirAll(wd, 0o755)
-	d := &Discharger{workdir: wd, quickS: 3, fullS: 20}
+	d := &Discharger{workdir: wd, quickS: 3, fullS: 60}
 	if tier == "thorough" {
-		d.fullS = 120
+		d.fullS = 180
 	}
 	return d
 }
